@@ -493,6 +493,44 @@ def dg_one_sided(c, degree=1):
 
 
 @builder
+def cond_ties(c, degree=1, facets=False):
+    """Every comparison operator with operands that can be exactly equal at run time: the same subexpression on both
+    sides, two constants, a constant against a literal, a coefficient against literal zero.  With the fixed data
+    (all coefficient dofs 0, all constants 2.0; see data_fixed) every comparison is decided at equality, exactly on
+    both sides; with random data none is.  Distinct branch values identify which operator went wrong."""
+    V = c.V("Lagrange", degree)
+    v = TestFunction(V)
+    f = Coefficient(V)
+    c1, c2 = Constant(c.mesh), Constant(c.mesh)
+    ops = [ufl.lt, ufl.le, ufl.gt, ufl.ge, ufl.eq, ufl.ne]
+    t = 0
+    for k, op in enumerate(ops):
+        t = t + conditional(op(f, 0.0), 2.0 + k, 11.0 + 3 * k)
+        t = t + conditional(op(0.0, f), 3.5 + k, 17.0 + 5 * k)
+        t = t + conditional(op(c1, c2), 1.25 + k, 7.0 + 2 * k)
+        t = t + conditional(op(c1, 2.0), 0.5 + k, 23.0 + k)
+        t = t + conditional(op(f, f), 1.5 * (k + 1), 29.0 + 7 * k)
+        t = t + conditional(ufl.Or(op(c1, c2), ufl.Not(op(c2, c1))), 0.75 + k, 31.0 + k)
+        t = t + conditional(ufl.And(op(c1, 2.0), op(f, 0.0)), 0.3 + k, 37.0 + 2 * k)
+    form = t * v * dx
+    if facets:
+        form = form + t * v * ds + t("+") * v("-") * dS
+    return form
+
+
+@builder
+def zero_data_math(c, degree=1):
+    """Math functions and operators at the special value 0 (use with data_fixed w=0: a zero initial guess)."""
+    V = c.V("Lagrange", degree)
+    v = TestFunction(V)
+    f = Coefficient(V)
+    c1 = Constant(c.mesh)
+    t = (sqrt(f * f) + abs(f) + exp(f) + cos(f) + ufl.sinh(f) + ufl.atan(f) + ufl.atan2(f, c1) + ufl.max_value(f, -f) + ufl.min_value(f, 0.0)
+         + ufl.sign(f) + (1.0 + f) ** 2 + f ** 2 + ufl.erf(f) + ufl.ln(1.0 + f * f) + c1 / (1.0 + f))
+    return t * v * dx
+
+
+@builder
 def dg_functional(c):
     V = c.V("Lagrange", 2)
     f = Coefficient(V)
